@@ -21,6 +21,8 @@ MCStreams == {
   St(30, TRUE, "titan", 3, 3, {32, 33, 34, 35}),
   St(30, TRUE, "titan", 3, 9, {32, 35, 38, 41}),
   St(30, TRUE, "titan", 3, 2, {32, 34}),
+  \* an upload that announces far more than the peer ever sends, and then goes silent
+  St(60, TRUE, "titan", 3000000, 38, {62, 100}),
   St(30, TRUE, "titanBad", 0, 3, {32, 35}),
   \* every byte offset is a cut point: all 2^(n-1) segmentations of a short Gemini and a short Titan request
   St(16, TRUE, "ok", 0, 2, 1..20),
